@@ -2,7 +2,8 @@
     The tables [import_table] and [call_sites] are regenerated from every *.py under src/rp2 on
     every run (translator fragment `imports`); this file holds the policy (allow / deny lists, the
     modelled write sites) and the decidable checkers the theorems of C18 evaluate. *)
-From RP2V Require Import Base.Prelude Base.Sorting Model.Types Model.Generated Model.MainRun.
+From RP2V Require Import Base.Prelude Base.Sorting Model.Types.
+From RP2V Require Import Model.Generated Model.MainRun.
 Open Scope Z_scope.
 
 Fixpoint str_prefixb (p s : str) : bool :=
